@@ -134,6 +134,16 @@ pub(crate) fn cram_containers(b: &[u8]) -> Option<Vec<(usize, usize, usize, Vec<
     }
     Some(out)
 }
+/// raw CRAM stream: the compression method byte of every block of every container (independent walk of the block headers)
+pub(crate) fn cram_block_methods(b: &[u8]) -> Option<Vec<u8>> {
+    let mut out = Vec::new();
+    for (start, hl, len, _) in cram_containers(b)? {
+        let (mut p, end) = (start + hl, start + hl + len);
+        while p < end { out.push(*b.get(p)?); p += 2; itf8(b, &mut p)?; let size = usize::try_from(itf8_val(b, &mut p)?).ok()?; itf8(b, &mut p)?; p += size + 4; }
+        if p != end { return None; }
+    }
+    Some(out)
+}
 /// raw BAM stream: offsets right after the header and after each record (walk of the length fields, independent of the library)
 fn bam_marks(b: &[u8]) -> Option<Vec<usize>> {
     let u = |p: usize| -> Option<usize> { Some(u32::from_le_bytes(b.get(p..p + 4)?.try_into().ok()?) as usize) };
